@@ -41,7 +41,7 @@ theorem pkts_cons (c : Cfg) (st : St) (o : CallOr) (os : List CallOr) :
 
 /-- Every call of the run is fed digital silence (and the oracle record has the right shape). -/
 def SilentRun (c : Cfg) (ors : List CallOr) : Prop :=
-  ∀ o ∈ ors, o.digSil = true ∧ o.subs.length = nSub c o.mode
+  ∀ o ∈ ors, o.digSil = true ∧ o.subs.length = nSub c o.mode ∧ NoBust o
 
 theorem pktOf_all (l : List Bool) (n : Nat) (hne : l ≠ []) :
     pktOf l n = (if ∀ d ∈ l, d = true then Pkt.dtx (dtxPacketLen n) else Pkt.normal) := by
@@ -49,20 +49,31 @@ theorem pktOf_all (l : List Bool) (n : Nat) (hne : l ≠ []) :
   have : l.isEmpty = false := by cases l <;> simp_all
   simp [this]
 
-/-- One silent call from counter `nb` with room below the 600 ms limit. -/
+/-- One silent call from counter `nb` with room below the 600 ms limit; the state is one in which the
+    generalised detector was already in charge, or the counter is clear (so that the reset at a
+    change of detector changes nothing). -/
 theorem encodeCall_silence' (c : Cfg) (st : St) (o : CallOr) (hr : Regular c) (hg : GoodGeom c)
     (hlen : o.subs.length = nSub c o.mode) (hdtx : c.useDtx = true) (hon : analysisOn c = true) (hsil : o.digSil = true)
+    (hnob : NoBust o) (hst : st.silkUseDtx = false ∨ st.nb = 0)
     (hroom : st.nb + 5 * c.q ≤ limitQ1) :
     (encodeCall c st o).1.nb = st.nb + 5 * c.q ∧
     (encodeCall c st o).2.1 =
-      (if onsetQ1 < st.nb + subQ1 c o.mode then Pkt.dtx (dtxPacketLen (nSub c o.mode)) else Pkt.normal) := by
-  have hs := encodeCall_silence c st o hr hlen hdtx hon hsil
+      (if onsetQ1 < st.nb + subQ1 c o.mode then Pkt.dtx (dtxPacketLen (nSub c o.mode)) else Pkt.normal) ∧
+    (encodeCall c st o).1.silkUseDtx = false := by
+  have hs := encodeCall_silence c st o hr hlen hdtx hon hsil hnob
+  have hsd : sdtxOf c o = false := by simp [sdtxOf, isSilOf, hsil, hon]
+  have hnb : (prepCall c st o).nb = st.nb := by
+    apply prepCall_nb_same
+    rcases hst with h | h
+    · left; rw [hsd, h]
+    · right; exact h
+  rw [hnb] at hs
   obtain ⟨hn, hf, hnf⟩ := hg o.mode
   obtain ⟨n, hn'⟩ : ∃ n, nSub c o.mode = n + 1 := ⟨nSub c o.mode - 1, by omega⟩
   rw [hn'] at hs hnf
   have hrep := dtxSteps_replicate st.nb n (subQ1 c o.mode) (by rw [hnf]; exact hroom)
-  rw [hs.1, hs.2, hrep.1, hnf]
-  refine ⟨rfl, ?_⟩
+  rw [hs.1, hs.2.1, hrep.1, hnf]
+  refine ⟨rfl, ?_, hs.2.2⟩
   rw [pktOf_all]
   · simp only [hrep.2, hn']
   · intro h
@@ -73,28 +84,28 @@ theorem encodeCall_silence' (c : Cfg) (st : St) (o : CallOr) (hr : Regular c) (h
     stays below the 600 ms limit, is a DTX packet iff the inactivity at the end of its *first* coded
     frame exceeds 200 ms. -/
 theorem run_silence (c : Cfg) (hr : Regular c) (hg : GoodGeom c) (hdtx : c.useDtx = true) (hon : analysisOn c = true) :
-    ∀ (ors : List CallOr) (st : St), SilentRun c ors →
+    ∀ (ors : List CallOr) (st : St), (st.silkUseDtx = false ∨ st.nb = 0) → SilentRun c ors →
       ∀ j (hj : j < ors.length), st.nb + (j + 1) * (5 * c.q) ≤ limitQ1 →
         (pkts c st ors)[j]? = some
           (if onsetQ1 < st.nb + j * (5 * c.q) + subQ1 c (ors[j]).mode then Pkt.dtx (dtxPacketLen (nSub c (ors[j]).mode))
            else Pkt.normal) := by
   intro ors
   induction ors with
-  | nil => intro st _ j hj; cases hj
+  | nil => intro st _ _ j hj; cases hj
   | cons o os ih =>
-    intro st hsr j hj hroom
+    intro st hst hsr j hj hroom
     have ho := hsr o (by simp)
     have hroom0 : st.nb + 5 * c.q ≤ limitQ1 := by
       have : (j + 1) * (5 * c.q) = j * (5 * c.q) + 5 * c.q := Nat.succ_mul ..
       omega
-    have hc := encodeCall_silence' c st o hr hg ho.2 hdtx hon ho.1 hroom0
+    have hc := encodeCall_silence' c st o hr hg ho.2.1 hdtx hon ho.1 ho.2.2 hst hroom0
     rw [pkts_cons]
     cases j with
-    | zero => simp [hc.2]
+    | zero => simp [hc.2.1]
     | succ j =>
       simp only [List.getElem?_cons_succ, List.getElem_cons_succ]
       have hsr' : SilentRun c os := fun o' ho' => hsr o' (by simp [ho'])
-      have := ih (encodeCall c st o).1 hsr' j (by simpa using hj) (by
+      have := ih (encodeCall c st o).1 (Or.inl hc.2.2) hsr' j (by simpa using hj) (by
         rw [hc.1]
         have : (j + 1 + 1) * (5 * c.q) = (j + 1) * (5 * c.q) + 5 * c.q := Nat.succ_mul ..
         omega)
@@ -114,7 +125,7 @@ theorem onset_window (c : Cfg) (hr : Regular c) (hg : GoodGeom c) (hdtx : c.useD
     ∃ P, P < ors.length ∧ (∀ j < P, (pkts c st ors)[j]? = some Pkt.normal) ∧
       (∃ n, (pkts c st ors)[P]? = some (Pkt.dtx n)) ∧
       onsetQ1 < P * (5 * c.q) + 5 * c.q ∧ P * (5 * c.q) < onsetQ1 + 5 * c.q := by
-  have hrs := run_silence c hr hg hdtx hon ors st hsr
+  have hrs := run_silence c hr hg hdtx hon ors st (Or.inr hnb) hsr
   rw [hnb] at hrs
   have hsub : ∀ m, 1 ≤ subQ1 c m ∧ subQ1 c m ≤ 5 * c.q := by
     intro m
